@@ -1643,7 +1643,21 @@ static void do_source_file(const char *filename_in,
 
    if (did_open)
    {
-      fclose(pfout);
+      // A failed write (disk full, I/O error) may only show up here, as the
+      // data is buffered. Never let a truncated output replace anything.
+      bool write_failed = (ferror(pfout) != 0);
+
+      if (fclose(pfout) != 0)
+      {
+         write_failed = true;
+      }
+
+      if (write_failed)
+      {
+         LOG_FMT(LERR, "%s: Failed to write %s: %s (%d)\n",
+                 __func__, filename_tmp.c_str(), strerror(errno), errno);
+         exit(EX_IOERR);
+      }
 
       if (filename_tmp != filename_out)
       {
@@ -1652,7 +1666,12 @@ static void do_source_file(const char *filename_in,
             && file_content_matches(filename_tmp, filename_out))
          {
             // No change - remove tmp file
-            UNUSED(unlink(filename_tmp.c_str()));
+            if (unlink(filename_tmp.c_str()) != 0)
+            {
+               LOG_FMT(LERR, "%s: Unable to remove '%s': %s (%d)\n",
+                       __func__, filename_tmp.c_str(), strerror(errno), errno);
+               exit(EX_IOERR);
+            }
          }
          else
          {
